@@ -88,10 +88,18 @@ func parse(aliasTag string, out any, data map[string][]string, files ...map[stri
 }
 
 // Parse data into the struct with gofiber/schema
-func parseToStruct(aliasTag string, out any, data map[string][]string, files ...map[string][]*multipart.FileHeader) error {
+func parseToStruct(aliasTag string, out any, data map[string][]string, files ...map[string][]*multipart.FileHeader) (err error) {
 	// Get decoder from pool
 	schemaDecoder := decoderPoolMap[aliasTag].Get().(*schema.Decoder) //nolint:errcheck,forcetypeassert // not needed
 	defer decoderPoolMap[aliasTag].Put(schemaDecoder)
+
+	// The decoder indexes slices with client-supplied indices (e.g. "items.-1.x");
+	// report its panics as a binding error instead of taking the server down.
+	defer func() {
+		if r := recover(); r != nil {
+			err = fmt.Errorf("bind: invalid key or value: %v", r)
+		}
+	}()
 
 	// Set alias tag
 	schemaDecoder.SetAliasTag(aliasTag)
